@@ -80,6 +80,10 @@ pub enum ReadPlan {
     /// read exactly `limit` bytes with buffers of `size`, then issue one read with an
     /// empty buffer (which must change nothing)
     ThenZeroLengthRead { size: usize, limit: usize },
+    /// the whole body through another method of `Read` than read(): 0 = read_vectored (two
+    /// slices of 1500 bytes per call), 1 = read_exact(declared length) then a read that must
+    /// return 0, 2 = the bytes() iterator, 3 = read_to_string
+    OtherMethod { method: usize },
 }
 
 impl ReadPlan {
@@ -107,6 +111,8 @@ pub struct RespSpec {
     pub body_len: usize,
     pub declared: bool,
     pub threshold: Option<usize>,
+    /// further application headers `X-Pad-<i>: <40 bytes>` (a head above the 1 KiB write buffer)
+    pub headers: usize,
 }
 
 impl RespSpec {
@@ -116,6 +122,7 @@ impl RespSpec {
             body_len,
             declared: true,
             threshold: None,
+            headers: 0,
         }
     }
 }
@@ -325,6 +332,104 @@ pub fn read_body(rq: &mut Request, plan: &ReadPlan, ob: &mut ReqObs) {
             }
             ob.body = v;
         }
+        ReadPlan::OtherMethod { method } => {
+            ob.touched_body = true;
+            let declared = rq.body_length();
+            let r = rq.as_reader();
+            match method {
+                0 => {
+                    let (mut a, mut b) = (vec![0u8; 1500], vec![0u8; 1500]);
+                    loop {
+                        ob.reads += 1;
+                        let got = {
+                            let mut bufs = [std::io::IoSliceMut::new(&mut a), std::io::IoSliceMut::new(&mut b)];
+                            r.read_vectored(&mut bufs)
+                        };
+                        match got {
+                            Ok(0) => {
+                                ob.eof_seen = true;
+                                ob.eof_sticky = true;
+                                break;
+                            }
+                            Ok(n) => {
+                                ob.body.extend_from_slice(&a[..n.min(1500)]);
+                                if n > 1500 {
+                                    ob.body.extend_from_slice(&b[..n - 1500]);
+                                }
+                            }
+                            Err(e) => {
+                                ob.read_error = Some(format!("{:?}", e.kind()));
+                                break;
+                            }
+                        }
+                    }
+                }
+                1 => {
+                    // read_exact of the declared length (chunked bodies: read_to_end instead)
+                    match declared {
+                        Some(n) => {
+                            let mut v = vec![0u8; n];
+                            match r.read_exact(&mut v) {
+                                Ok(()) => ob.body = v,
+                                Err(e) => ob.read_error = Some(format!("{:?}", e.kind())),
+                            }
+                            let mut one = [0u8; 1];
+                            if ob.read_error.is_none() {
+                                match r.read(&mut one) {
+                                    Ok(0) => {
+                                        ob.eof_seen = true;
+                                        ob.eof_sticky = true;
+                                    }
+                                    Ok(_) => ob.body.push(one[0]),
+                                    Err(e) => ob.read_error = Some(format!("{:?}", e.kind())),
+                                }
+                            }
+                        }
+                        None => {
+                            let mut v = Vec::new();
+                            match r.read_to_end(&mut v) {
+                                Ok(_) => {
+                                    ob.eof_seen = true;
+                                    ob.eof_sticky = true;
+                                }
+                                Err(e) => ob.read_error = Some(format!("{:?}", e.kind())),
+                            }
+                            ob.body = v;
+                        }
+                    }
+                }
+                2 => {
+                    let mut v = Vec::new();
+                    let mut err = None;
+                    for b in r.bytes() {
+                        match b {
+                            Ok(x) => v.push(x),
+                            Err(e) => {
+                                err = Some(format!("{:?}", e.kind()));
+                                break;
+                            }
+                        }
+                    }
+                    if err.is_none() {
+                        ob.eof_seen = true;
+                        ob.eof_sticky = true;
+                    }
+                    ob.read_error = err;
+                    ob.body = v;
+                }
+                _ => {
+                    let mut t = String::new();
+                    match r.read_to_string(&mut t) {
+                        Ok(_) => {
+                            ob.eof_seen = true;
+                            ob.eof_sticky = true;
+                        }
+                        Err(e) => ob.read_error = Some(format!("{:?}", e.kind())),
+                    }
+                    ob.body = t.into_bytes();
+                }
+            }
+        }
         ReadPlan::ThenZeroLengthRead { size, limit } => {
             ob.touched_body = true;
             let mut buf = vec![0u8; (*size).max(1)];
@@ -394,6 +499,22 @@ pub fn read_body(rq: &mut Request, plan: &ReadPlan, ob: &mut ReqObs) {
     }
 }
 
+/// Writes `p` through `Write::write_vectored`, two slices per call, until all is written.
+pub fn write_vectored_all<W: Write + ?Sized>(w: &mut W, p: &[u8]) -> std::io::Result<()> {
+    let mut off = 0;
+    while off < p.len() {
+        let rest = &p[off..];
+        let mid = rest.len() / 2;
+        let bufs = [std::io::IoSlice::new(&rest[..mid]), std::io::IoSlice::new(&rest[mid..])];
+        match w.write_vectored(&bufs) {
+            Ok(0) => return Err(std::io::Error::new(std::io::ErrorKind::WriteZero, "write_vectored returned 0")),
+            Ok(n) => off += n,
+            Err(e) => return Err(e),
+        }
+    }
+    Ok(())
+}
+
 pub fn build_response(id: usize, spec: &RespSpec) -> Response<std::io::Cursor<Vec<u8>>> {
     let body = body_for(id, spec.body_len);
     let mut r = Response::new(
@@ -405,6 +526,9 @@ pub fn build_response(id: usize, spec: &RespSpec) -> Response<std::io::Cursor<Ve
     );
     if let Some(t) = spec.threshold {
         r = r.with_chunked_threshold(t);
+    }
+    for i in 0..spec.headers {
+        r.add_header(Header::from_bytes(format!("X-Pad-{}", i).as_bytes(), "0123456789abcdefghijklmnopqrstuvwxyzABCD".as_bytes()).unwrap());
     }
     r
 }
@@ -441,8 +565,34 @@ pub fn finish_request(rq: Request, id: usize, fin: &Finish, ob: &mut ReqObs) {
         Finish::Writer { parts, flush } => {
             let mut w = rq.into_writer();
             let mut res = "writer:ok".to_string();
+            // which method of `Write` the application uses is encoded in the number of leading
+            // EMPTY parts: 0 = write_all, 1 = write_vectored (two slices per call), 2 = plain
+            // write() with at most 7 bytes per call
+            let style = parts.iter().take_while(|p| p.is_empty()).count() % 3;
             for p in parts {
-                if let Err(e) = w.write_all(p) {
+                let r = match style {
+                    1 => write_vectored_all(&mut w, p),
+                    2 => {
+                        let mut off = 0;
+                        let mut r = Ok(());
+                        while off < p.len() {
+                            match w.write(&p[off..(off + 7).min(p.len())]) {
+                                Ok(0) => {
+                                    r = Err(std::io::Error::new(std::io::ErrorKind::WriteZero, "write returned 0"));
+                                    break;
+                                }
+                                Ok(n) => off += n,
+                                Err(e) => {
+                                    r = Err(e);
+                                    break;
+                                }
+                            }
+                        }
+                        r
+                    }
+                    _ => w.write_all(p),
+                };
+                if let Err(e) = r {
                     res = format!("writer:err:{:?}", e.kind());
                     break;
                 }
@@ -668,6 +818,7 @@ pub fn read_plan_json(p: &ReadPlan) -> Value {
         ReadPlan::None => json!("none"),
         ReadPlan::ReadToEnd => json!("read_to_end"),
         ReadPlan::ThenZeroLengthRead { size, limit } => json!({"then_zero_length_read": {"size": size, "limit": limit}}),
+        ReadPlan::OtherMethod { method } => json!({"other_method": method}),
         ReadPlan::Sizes {
             sizes,
             limit,
@@ -681,6 +832,7 @@ pub fn read_plan_from_json(v: &Value) -> ReadPlan {
     match v.as_str() {
         Some("none") => ReadPlan::None,
         Some("read_to_end") => ReadPlan::ReadToEnd,
+        _ if v.get("other_method").is_some() => ReadPlan::OtherMethod { method: v["other_method"].as_u64().unwrap_or(0) as usize },
         _ if v.get("then_zero_length_read").is_some() => ReadPlan::ThenZeroLengthRead {
             size: v["then_zero_length_read"]["size"].as_u64().unwrap_or(1) as usize,
             limit: v["then_zero_length_read"]["limit"].as_u64().unwrap_or(0) as usize,
@@ -699,7 +851,7 @@ pub fn read_plan_from_json(v: &Value) -> ReadPlan {
 
 pub fn finish_json(f: &Finish) -> Value {
     match f {
-        Finish::Respond(s) => json!({"respond": {"status": s.status, "body_len": s.body_len, "declared": s.declared, "threshold": s.threshold.map(|t| t.to_string())}}),
+        Finish::Respond(s) => json!({"respond": {"status": s.status, "body_len": s.body_len, "declared": s.declared, "threshold": s.threshold.map(|t| t.to_string()), "headers": s.headers}}),
         Finish::Writer { parts, flush } => json!({"writer": {"parts": parts.iter().map(|p| esc(p)).collect::<Vec<_>>(), "flush": flush}}),
         Finish::Upgrade => json!("upgrade"),
         Finish::Drop => json!("drop"),
@@ -736,6 +888,7 @@ pub fn finish_from_json(v: &Value) -> Finish {
         body_len: r["body_len"].as_u64().unwrap_or(0) as usize,
         declared: r["declared"].as_bool().unwrap_or(true),
         threshold: r["threshold"].as_str().and_then(|s| s.parse().ok()),
+        headers: r["headers"].as_u64().unwrap_or(0) as usize,
     })
 }
 
